@@ -20,7 +20,7 @@ func init() {
 			"i being the finder applied to that very body, and the tag a single value that does not contain the body. R2: bytes -> decompress -> Latin-1 decode -> splice -> Latin-1 encode, nothing else. " +
 			"R3: on the success exit the response body, the declared length and the removal of Content-Encoding all refer to the final encoded bytes. R4: the finder scans i = 0,1,... while i < min(window, len(body)) " +
 			"(loop condition evaluated on constants), returns the first i at which one of the four documented markers matches the unmodified body, and -1 after exhaustion; the matcher is bounds-guarded and compares " +
-			"body[i:i+len(marker)] case-insensitively. R6: the inspected prefix is 16 KiB of the body; today the window bounds byte offsets of the Latin-1-decoded text, in which bytes >= 0x80 take two bytes: recorded finding F22. R4 expands a search over a small table of markers.",
+			"body[i:i+len(marker)] case-insensitively. R6: the inspected prefix is 16 KiB of the body; today the window bounds byte offsets of the Latin-1-decoded text, in which bytes >= 0x80 take two bytes: recorded finding F22. R4 expands a search over a small table of markers. R3 is judged on the final values in effect on each success path (helpers, several call sites); where the finder said -1 the decompressed bytes may be served as they are (ISO 8859-1 is a bijection on bytes).",
 		Trusted: []string{"proxyutil.DecodeLatin1/EncodeLatin1 are inverse bijections between bytes and Latin-1 text; ReadDecompressedBody undoes Content-Encoding (library)"},
 	})
 }
